@@ -852,6 +852,11 @@ fn invalid(c: &mut Case) {
     }
 }
 
+/// parameter builders keep every configured value whatever the order of the `with_*` steps
+fn builders_fam(c: &mut Case) {
+    scverif::builders::case(c, "C08")
+}
+
 fn main() {
     runner::main(Spec {
         property: "C08",
@@ -865,6 +870,7 @@ fn main() {
             "alpha = 0 is allowed by the statement but excluded by its quantifier (alpha from 1e-3) and is not generated; constant targets (F* = 0, relative tolerance void) are checked only for termination, Ok, finiteness and an absolute objective slack of 1e-10·n·ȳ²",
         ],
         families: vec![
+            Family::new("builders", 300, 3000, builders_fam),
             Family::new("lasso", 2000, 30000, lasso),
             Family::new("enet", 2000, 30000, enet),
             Family::new("enet_rho1", 700, 10000, enet_rho1),
